@@ -967,13 +967,14 @@ func Div(y tensor.Tensor, a tensor.Tensor, b tensor.Tensor) (gctx *GradContext) 
 				gradFn: func() (o tensor.Tensor, err error) {
 					gy := y.Gradient()
 
-					n := a.Scale(-1)
-					d := b.Pow(2)
-
-					gb, err := n.Div(d)
+					// -a/b^2 taken as -(a/b)/b = -y/b: squaring b first overflows (or
+					// underflows to a zero divisor) where the quotient is representable
+					gb, err := y.Div(b)
 					if err != nil {
 						return
 					}
+
+					gb = gb.Scale(-1)
 
 					return gy.Mul(gb)
 				},
